@@ -391,11 +391,23 @@ Proof.
     destruct track; (apply keeps_tag; [reflexivity|cbn; discriminate]).
   - destruct h; cbn [fst]; try apply keeps_refl.
     destruct (call_write_body c input cap) as [[[c' used] out]| |]; cbn [fst]; try apply keeps_refl.
-    destruct track; (apply keeps_tag; [reflexivity|cbn; discriminate]).
+    + destruct track; (apply keeps_tag; [reflexivity|cbn; discriminate]).
+    + apply keeps_tag; [reflexivity|cbn; discriminate].
 Qed.
 
 Definition special16 (o : op) : bool :=
   match o with ONew _ | OHeader _ _ | ODespite | OAsNewFlow _ | OFollow => true | _ => false end.
+
+(** The arms of [step] for the single call past the request: the object stays a call or is gone. *)
+Ltac call_arms :=
+  unfold do_call_into_receive;
+  repeat match goal with
+  | |- context [match into_receive ?c with _ => _ end] => destruct (into_receive c)
+  | |- context [match c_reader ?c with _ => _ end] => destruct (c_reader c) as [[| | |]|]
+  | |- context [match call_try_response ?c ?b with _ => _ end] => destruct (call_try_response c b) as [[? ?]|?|?]
+  | |- context [match call_read ?c ?b ?cap with _ => _ end] => destruct (call_read c b cap) as [[[? ?] ?]|?|?]
+  end; cbn [fst];
+  first [apply keeps_refl | apply keeps_tag; [reflexivity|cbn; discriminate]].
 
 Lemma step_keeps s o : special16 o = false -> keeps s (fst (step s o)).
 Proof.
@@ -406,14 +418,15 @@ Proof.
   all: destruct (s_obj s) as [|t f|h c] eqn:Ho; try apply keeps_refl.
   all: try (destruct t; try apply keeps_refl).
   all: try (destruct h; try apply keeps_refl).
+  all: try (solve [call_arms]).
   all: try apply do_proceed_keeps.
   all: try apply do_premature_keeps.
   all: try apply do_try100_keeps.
   all: try apply do_try_response_keeps.
   all: try apply do_read_keeps.
   all: try (apply upd_keeps; discriminate).
-  destruct (call_write_nobody c cap) as [[c' out]| |]; cbn [fst]; try apply keeps_refl.
-  apply keeps_tag; [reflexivity|cbn; discriminate].
+  destruct (call_write_nobody c cap) as [[c' out]| |]; cbn [fst]; try apply keeps_refl;
+    (apply keeps_tag; [reflexivity|cbn; discriminate]).
 Qed.
 
 Lemma step_prep_ok s o : prep_ok s -> prep_ok (fst (step s o)).
